@@ -956,3 +956,133 @@ func c15r11(rc *core.RC) {
 		rc.Check(uses > 0, "runtime.StructTags.ExistsKey/used-by-"+pk, fd.Pos(), "package %s decides member shadowing through ExistsKey (%d call(s))", pk, uses)
 	}
 }
+
+// ---- C15.R12 among members of one name, the shallowest embedding depth wins ----
+
+// Go's rule for promoted fields: of several fields with the same JSON name the one at the
+// shallowest embedding depth is used; only fields at that depth can cancel each other (or be told
+// apart by a tag). Both compilers therefore have to know each candidate's depth. The rule checks
+// that (1) the conflict resolvers (encoder getDuplicatedFieldMap, decoder filterDuplicatedFields)
+// compare the depth of the candidates before they compare anything else, and (2) a promoted
+// field's depth is its depth in the embedded struct plus one (decoder: every structFieldSet built
+// from an embedded struct's field map; encoder: the recursive walk passes depth+1).
+func c15r12(rc *core.RC) {
+	p := rc.P
+	isDepth := func(info *types.Info, e ast.Expr) bool {
+		f := core.FieldOf(info, e)
+		return f != nil && f.Name() == "depth"
+	}
+	comparesDepth := func(fd *ast.FuncDecl) bool {
+		info := p.Info(fd)
+		found := false
+		ast.Inspect(fd.Body, func(m ast.Node) bool {
+			be, ok := m.(*ast.BinaryExpr)
+			if !ok {
+				return true
+			}
+			switch be.Op {
+			case token.LSS, token.GTR, token.LEQ, token.GEQ, token.EQL, token.NEQ:
+				l := isDepth(info, be.X) || core.ObjOf(info, be.X) != nil && strings.Contains(strings.ToLower(core.ObjOf(info, be.X).Name()), "depth")
+				r := isDepth(info, be.Y) || core.ObjOf(info, be.Y) != nil && strings.Contains(strings.ToLower(core.ObjOf(info, be.Y).Name()), "depth")
+				if (isDepth(info, be.X) || isDepth(info, be.Y)) && l && r {
+					found = true
+				}
+			}
+			return true
+		})
+		return found
+	}
+	for _, spec := range [][2]string{{"encoder", "Compiler.getDuplicatedFieldMap"}, {"decoder", "filterDuplicatedFields"}} {
+		fd := p.Func(spec[0], spec[1])
+		key := spec[0] + "." + spec[1] + "/compares-depth"
+		if fd == nil {
+			rc.Unknown(key, token.NoPos, "conflict resolver not found")
+			continue
+		}
+		rc.Touch(p.FuncName(fd))
+		rc.Check(comparesDepth(fd), key, fd.Pos(), "the resolver of same-named members compares the embedding depth of the candidates: a deeper field never cancels a shallower one")
+	}
+	// decoder: promoted field sets carry inner depth + 1
+	if fd := p.Func("decoder", "compileStruct"); fd == nil {
+		rc.Unknown("decoder.compileStruct", token.NoPos, "not found")
+	} else {
+		info := p.Info(fd)
+		rc.Touch("decoder.compileStruct")
+		n := 0
+		ast.Inspect(fd.Body, func(m ast.Node) bool {
+			rs, ok := m.(*ast.RangeStmt)
+			if !ok || rs.Value == nil {
+				return true
+			}
+			// range over <x>.fieldMap
+			if f := core.FieldOf(info, rs.X); f == nil || f.Name() != "fieldMap" {
+				return true
+			}
+			inner := core.ObjOf(info, rs.Value)
+			ast.Inspect(rs.Body, func(x ast.Node) bool {
+				cl, isLit := x.(*ast.CompositeLit)
+				if !isLit {
+					return true
+				}
+				tv, has := info.Types[cl]
+				if !has || !strings.HasSuffix(tv.Type.String(), "structFieldSet") {
+					return true
+				}
+				n++
+				good := false
+				for _, el := range cl.Elts {
+					kv, isKV := el.(*ast.KeyValueExpr)
+					if !isKV {
+						continue
+					}
+					if id, isIdent := kv.Key.(*ast.Ident); !isIdent || id.Name != "depth" {
+						continue
+					}
+					if be, isBin := core.Unparen(kv.Value).(*ast.BinaryExpr); isBin && be.Op == token.ADD {
+						if v, isConst := core.ConstInt(info, be.Y); isConst && v == 1 && isDepth(info, be.X) {
+							if sel, isSel := core.Unparen(be.X).(*ast.SelectorExpr); isSel && core.ObjOf(info, sel.X) == inner {
+								good = true
+							}
+						}
+					}
+				}
+				rc.Check(good, fmt.Sprintf("decoder.compileStruct/promoted-field#%d depth", n), cl.Pos(), "a field set promoted from an embedded struct has depth = its depth there + 1")
+				return true
+			})
+			return true
+		})
+		if n < 2 {
+			rc.Unknown("decoder.compileStruct/promoted-fields", fd.Pos(), "found %d promoted field-set literals (2 confirmed)", n)
+		}
+	}
+	// encoder: the walk over embedded structs passes depth+1 downwards
+	if fd := p.Func("encoder", "Compiler.getFieldMapFromAnonymousParent"); fd == nil {
+		rc.Unknown("encoder.getFieldMapFromAnonymousParent", token.NoPos, "not found")
+	} else {
+		info := p.Info(fd)
+		rc.Touch(p.FuncName(fd))
+		deeper, assigns := false, false
+		ast.Inspect(fd.Body, func(m ast.Node) bool {
+			switch x := m.(type) {
+			case *ast.CallExpr:
+				for _, a := range x.Args {
+					if be, isBin := core.Unparen(a).(*ast.BinaryExpr); isBin && be.Op == token.ADD {
+						if v, isConst := core.ConstInt(info, be.Y); isConst && v == 1 {
+							if o := core.ObjOf(info, be.X); o != nil && strings.Contains(strings.ToLower(o.Name()), "depth") {
+								deeper = true
+							}
+						}
+					}
+				}
+			case *ast.AssignStmt:
+				for _, l := range x.Lhs {
+					if isDepth(info, l) {
+						assigns = true
+					}
+				}
+			}
+			return true
+		})
+		rc.Check(deeper && assigns, "encoder.getFieldMapFromAnonymousParent/depth-propagated", fd.Pos(), "fields of an embedded struct are given the current depth and deeper embedded structs are walked with depth+1")
+	}
+}
